@@ -48,6 +48,7 @@ package storage
 //@   ensures {nf} reported_are_new: forall(c, 0, len(result0), newlySafe(repo, result0[c]))
 //@   ensures {rep} new_are_reported: forall(t bitcoin.Hash32, has(repo.unconfirmed, t) && repo.unconfirmed[t].safe && !old(repo.unconfirmed[t].safe) ==> exists(c, 0, len(result0), result0[c] == t))
 //@   ensures never_unsafe: forall(t bitcoin.Hash32, has(repo.unconfirmed, t) && old(repo.unconfirmed[t].unsafe) ==> repo.unconfirmed[t].safe == old(repo.unconfirmed[t].safe))
+//@   ensures mempool_lock_free: !held(memPool.mutex)
 //@   ensures domain: same(repo.unconfirmed) && uSame(repo) && result1 == nil
 //@   ensures inv: InvU(repo)
 //@   loop 0 invariant !held(memPool.mutex)
